@@ -2,7 +2,7 @@ package main
 
 import (
 	"fmt"
-	"os"
+	"math/rand"
 
 	. "verifharness/lib"
 )
@@ -10,17 +10,30 @@ import (
 func main() {
 	run := NewRun("SMOKE", nil)
 	run.Prepare()
-	for _, r := range FeatureCatalogue() {
-		if r.ID != os.Args[1] {
-			continue
-		}
-		s := NewSession(run, []*Request{r})
-		for n, c := range s.Gens[0].Results[os.Args[2]].Files {
-			if len(os.Args) < 4 || os.Args[3] == n {
-				fmt.Println("=====", n)
-				fmt.Println(c)
+	reqs := RandomSchemas(rand.New(rand.NewSource(5)), 30, true)
+	s := NewSession(run, reqs)
+	bad := 0
+	for i, r := range reqs {
+		g := s.Gens[i]
+		for _, p := range Plugins {
+			x := g.Results[p]
+			if x.Exit != "ok" {
+				fmt.Println(r.ID, p, x.Exit, x.Error)
+				bad++
 			}
 		}
 	}
+	s.BuildRuntime(true)
+	for _, r := range reqs {
+		if v := s.Verdict[r.ID]; v != nil && (!v.Build || !v.Vet) {
+			o := v.Output
+			if len(o) > 300 {
+				o = o[:300]
+			}
+			fmt.Println(r.ID, "build", v.Build, "vet", v.Vet, o)
+			bad++
+		}
+	}
+	fmt.Println("bad", bad, "of", len(reqs))
 	run.Cleanup()
 }
